@@ -10,8 +10,21 @@ def main() -> None:
             break
         rng = net.rng
         phys = rng.choice([1, 2, 3])
-        stmts = gen_statements(rng, 1 if phys == 1 else 2, rng.randrange(1, 7))
-        sizes = sizes_for(stmts, rng)
+        if rng.random() < 0.3:
+            # datatype-heavy generalized statements against a small, evicting datatype table (LRU order matters)
+            from spec.gen import DTS, LEX
+            dts = [d for d in DTS if not d.endswith("#string")]
+            def tl():
+                return ("lit", rng.choice(LEX), None, rng.choice(dts))
+            stmts = []
+            for _ in range(rng.randrange(4, 12)):
+                st = (tl(), ("iri", "http://ex.org/p"), tl()) + ((tl(),) if phys != 1 else ())
+                stmts.append(st)
+            k = max(occ(s)["d"] for s in stmts)
+            sizes = (8, rng.choice([0, 4]), k + rng.randrange(0, 2))
+        else:
+            stmts = gen_statements(rng, 1 if phys == 1 else 2, rng.randrange(1, 7))
+            sizes = sizes_for(stmts, rng)
         fs = rng.choice([1, 2, 3, 4, 250])
         delimited = True if phys == 3 else rng.random() < 0.7
         logical = {1: 1, 2: 2, 3: 2}[phys] if not delimited else rng.choice([None, {1: 1, 2: 2, 3: 2}[phys]])
